@@ -1,7 +1,7 @@
-// harness c07_verify_iff_spec (property C07) failed in the solver on 79f96efe2527a737c3734099f028874ccab69f11+dirty
+// harness c07_verify_iff_spec (property C07) failed in the solver on d7f8bd75a260d6abe84e4f0363e17873c460cbdc+dirty
 // failed checks: [{"description": "assertion failed: ok == want", "function": "config::verif_kani::c07_verify_iff_spec", "file": "config.rs", "line": "86"}]
 // the harness uses code stubs, so the violation is confirmed by the native property-level oracle
 // test `c07_oracle_boundary_grid` in /verif/harness/native/config.rs (fails = reproduced): True
 //@replay-harness: c07_verify_iff_spec
 //@replay-oracle: c07_oracle_boundary_grid
-// panicked at /var/tmp/flacenc-verif-c07-o1wam35x/shadow/verif_harness/native/config.rs:88:5: | verify() disagrees with the documented ranges for: ["alpha=NaN"]
+// panicked at /var/tmp/flacenc-verif-c07-xykzdmat/shadow/verif_harness/native/config.rs:102:5: | verify() disagrees with the documented ranges for (first 12): ["fixed.max_order=0 & ApproxEnt.partitions=0", "fixed.max_order=0 & ApproxEnt.partitions=65", "fixed.max_order=0 & ApproxEnt.partitions=255", "fixed.max_order=0 & ApproxEnt.partitions=256", "fixed.max_order=0 & ApproxEnt.partitions=65535", "fixed.max_order=0 & ApproxEnt.partitions=65536", "fixed.max_order=0 & ApproxEnt.partitions=18446744073709551615"]
